@@ -344,3 +344,38 @@ Theorem C05_generated_offset_constants : Generated.ZBaseOffsetForNegativeFIndex 
   Generated.ZBaseOffsetForNegativeFIndex = AltKeyCore.zbase_offset_neg /\ Generated.ZOriginValue = AltKeyCore.zorigin.
 Proof. exact (conj GenEqAlt.gen_ZBaseOffsetForNegativeFIndex_val (conj GenEqAlt.gen_ZBaseOffsetForNegativeFIndex_eq GenEqAlt.gen_ZOriginValue_eq)). Qed.
 Print Assumptions C05_generated_offset_constants.
+
+(* ---- the same kernels with Go's int64 semantics explicit (generated/Generated64.v; theories/GenC05.v): on the property's domain — zooms
+   0..35, |index| <= 2^zoom; for the altitude key EVERY int64 vertical index — the int64 code does not panic (Some), no intermediate
+   leaves the int64 range (flag true) and the value is the unbounded model's. This discharges, for these kernels, the sentence
+   "int64 arithmetic does not wrap on the property's domain" that meta/C05.json lists as an assumption; it stays one for the hand-written
+   loops, string handling and tree loops. ---- *)
+From SIDGen Require Generated64.
+From SID Require GenC05.
+Theorem C05_int64_HorizontalZoomMinMax_is_the_model : forall zin x y zout,
+  0 <= zin <= 35 -> 0 <= zout <= 35 -> Z.abs x <= 2 ^ zin -> Z.abs y <= 2 ^ zin ->
+  Generated64.HorizontalZoomMinMax zin x y zout = Some (ZoomCore.hzoom_minmax zin x y zout, true).
+Proof. exact GenC05.c05_int64_HorizontalZoomMinMax_is_model. Qed.
+Print Assumptions C05_int64_HorizontalZoomMinMax_is_the_model.
+Theorem C05_int64_VerticalZoom_bounds_are_the_model : forall zin f zout,
+  0 <= zin <= 35 -> 0 <= zout <= 35 -> Z.abs f <= 2 ^ zin ->
+  Generated64.VerticalZoom_minmax zin f zout = Some (ZoomCore.vzoom_minmax zin f zout, true).
+Proof. exact GenC05.c05_int64_VerticalZoom_minmax_is_model. Qed.
+Print Assumptions C05_int64_VerticalZoom_bounds_are_the_model.
+Theorem C05_int64_CheckZoom_is_the_model : forall z, Generated64.CheckZoom z = Some (Ids.check_zoom z, true).
+Proof. exact GenC05.c05_int64_CheckZoom_is_model. Qed.
+Print Assumptions C05_int64_CheckZoom_is_the_model.
+Theorem C05_int64_detector_altitude_key_is_the_model : forall f z, 0 <= z <= 35 ->
+  Generated64.ConvertZToMinMaxAltitudekey f z z Generated.ZOriginValue Generated.ZBaseOffsetForNegativeFIndex =
+  Some (GenTac.enc_zz (AltKeyCore.z2key f z z AltKeyCore.zorigin AltKeyCore.zbase_offset_neg), true).
+Proof. exact GenC05.c05_int64_detector_altitude_key_is_model. Qed.
+Print Assumptions C05_int64_detector_altitude_key_is_the_model.
+Theorem C05_int64_detector_altitude_key_never_panics_never_wraps : forall f z, 0 <= z <= 35 ->
+  exists r, Generated64.ConvertZToMinMaxAltitudekey f z z Generated.ZOriginValue Generated.ZBaseOffsetForNegativeFIndex = Some (r, true).
+Proof. exact GenC05.c05_int64_detector_altitude_key_total. Qed.
+Print Assumptions C05_int64_detector_altitude_key_never_panics_never_wraps.
+Example C05_int64_kernels_evaluated :
+  Generated64.ConvertZToMinMaxAltitudekey (-1) 25 25 Generated.ZOriginValue Generated.ZBaseOffsetForNegativeFIndex = Some ((2 ^ 24 - 1, 2 ^ 24 - 1, false), true) /\
+  Generated64.ConvertZToMinMaxAltitudekey 1 26 26 Generated.ZOriginValue Generated.ZBaseOffsetForNegativeFIndex = Some ((2 ^ 25 + 1, 2 ^ 25 + 1, false), true) /\
+  Generated64.VerticalZoom_minmax 3 (-1) 1 = Some (ZoomCore.vzoom_minmax 3 (-1) 1, true) /\ ZoomCore.vzoom_minmax 3 (-1) 1 = (-1, -1).
+Proof. exact GenC05.c05_int64_examples. Qed.
